@@ -32,14 +32,19 @@ import (
 //	        and at Flush entry, which decides "pass-through events are not held
 //	        back" from ordering alone, without any timing assumption.
 //
-// Every event carries its step index as payload, so identity, order and
-// "unchanged" are all decidable.
+// Most events carry their step index as payload, so identity, order and
+// "unchanged" are all decidable; some share one of two payloads, so that tied
+// events with byte-equal payloads occur too (compared as values, in order).
 
 type c18Step struct {
 	Kind     int  `json:"k"` // 0 user event, 1 member event, 2 query, 3 flush
 	Name     int  `json:"n"`
 	LTime    int  `json:"lt"`
 	Coalesce bool `json:"c"`
+	// Pay > 0: the payload is one of two shared values instead of the step
+	// index, so that distinct events with byte-equal payloads occur (events are
+	// then compared as values, in order and with multiplicity)
+	Pay int `json:"p,omitempty"`
 }
 
 type c18Case struct {
@@ -60,6 +65,7 @@ func genC18(t *rapid.T) c18Case {
 		}
 		if k == 0 {
 			st.Coalesce = rapid.IntRange(0, 5).Draw(t, "co") != 0
+			st.Pay = rapid.SampledFrom([]int{0, 0, 0, 1, 1, 2}).Draw(t, "pay")
 		}
 		c.Steps = append(c.Steps, st)
 	}
@@ -69,6 +75,9 @@ func genC18(t *rapid.T) c18Case {
 
 func c18Event(i int, st c18Step) serf.Event {
 	pl := []byte(fmt.Sprintf("%04d", i))
+	if st.Pay > 0 {
+		pl = []byte(fmt.Sprintf("shared-%d", st.Pay))
+	}
 	switch st.Kind {
 	case 0:
 		return serf.UserEvent{LTime: serf.LamportTime(st.LTime), Name: fmt.Sprintf("ev%d", st.Name), Payload: pl, Coalesce: st.Coalesce}
